@@ -413,6 +413,31 @@ def check_sessions(o, d: Path):
         raise common.TLCError("Demo_LuaSession_kept lost its counterexample")
     cases = r.cases
     res = run_sessions([c["sess"] for c in cases], d / "sessions")
+
+    def first_mismatch(c, got):
+        by = {g[0]: g for g in got}
+        for j, stj in enumerate(c["sess"]):
+            if session_outcome(stj, by.get(j)) != c["out"][j]:
+                return j
+        return None
+
+    # timing-dependent verdicts are re-executed (alone, one at a time) before they are believed: a benign
+    # invocation that runs out of its limit on an overloaded machine is not a defect of the library.  A
+    # mismatch is kept only if it shows again, at the same step, in each of two further executions.
+    suspects = [i for i, (c, got) in enumerate(zip(cases, res)) if first_mismatch(c, got) is not None]
+    o.extra["sessions_reexecuted"] = len(suspects)
+    for attempt in (1, 2):
+        if not suspects:
+            break
+        again = run_sessions([cases[i]["sess"] for i in suspects], d / f"sessions-redo{attempt}", nproc=1 if len(suspects) <= 6 else 3)
+        still = []
+        for i, got in zip(suspects, again):
+            if first_mismatch(cases[i], got) is None:
+                res[i] = got            # a clean execution: the mismatch was not reproducible
+            else:
+                res[i] = got
+                still.append(i)
+        suspects = still
     for c, got in zip(cases, res):
         o.traces += 1
         o.shape(("session", common.json_key(c["sess"])))
